@@ -56,7 +56,7 @@ Provide ==
               D1 == DOf(r1, amp)
               m == (s.S * (D1 - D0)) \div D0
               t == [s EXCEPT !.res = r1, !.bal = [n \in Idx |-> s.bal[n] + d[n]], !.S = s.S + m]
-          IN D1 > D0 /\ Judge(ProvideChecks(s, d, m, m, t), t)
+          IN D1 > D0 /\ Judge(ProvideChecks(s, d, m, m, FALSE, 0, t), t)
 Withdraw ==
   /\ PoolOn
   /\ \E amt \in 1 .. 3 :
